@@ -59,7 +59,12 @@ theorem normal_node_depends_on_skeleton_only (cfg : Cfg) (cls : String) (a a' : 
     (h : nodeOK cfg cls a dn d nkw hid = true) : nodeOK cfg cls a' dn d' nkw hid = true :=
   nodeOK_congr cfg cls a a' dn d d' nkw hid ha hd h
 
-/-! ### Examples, and the defects D16 / D17 / D18 as machine-checked counterexamples -/
+/-! ### Examples, and the defects D16 / D17 / D18 as machine-checked counterexamples
+
+D16 / D16b / D17 were repaired in /repo (commits 05006ba, ebb6d3b): `upper` resp. `dtype`/`device` are now forwarded to
+`LinearOperator.__init__` and live in `_kwargs`.  The statements named `previous_code_…` below are about the
+constructor layouts *before* those commits (the literal `snapshot`); the `…_today` statements are about the layout
+table generated from today's source, where the general theorems apply to upper-orientation operators as well. -/
 
 /-- The constructor layouts of the classes used in the examples below, **as of the pinned commit**
 (Chol.upper, Zero.dtype/device only kept as attributes).  `snapshot_matches_source` ties it to today's source. -/
@@ -108,17 +113,65 @@ theorem hypotheses_satisfiable :
     normal (genCfg .f32) exSum = true ∧ representable exSum = true ∧ plain exSum = true ∧ (rep exSum).length = 7 := by
   decide +kernel
 
-/-- **D16 (counterexample)**: `CholLinearOperator(R, upper=True)` is *not* reproduced by the rebuild — the result
-has `upper = False`, because `upper` never reaches `_kwargs` (the layout lists it as hidden). -/
-theorem rebuild_flatten_chol_upper_counterexample :
+/-- **D16, previous code (counterexample)**: with the pre-05006ba constructor (`upper` only kept as an attribute)
+`CholLinearOperator(R, upper=True)` is *not* reproduced by the rebuild — the result has `upper = False`. -/
+theorem previous_code_chol_upper_lost_counterexample :
     (call (genCfg .f32) (tree (exChol true)) (rep (exChol true))).map hidOf = some [("upper", .bool false)] ∧
     hidOf (exChol true) = [("upper", .bool true)] := by
   decide +kernel
 
-/-- **D16 (partial)**: with the flag at its default the Cholesky operator round-trips. -/
-theorem rebuild_flatten_chol_partial (rest : List Leaf) :
+/-- **D16, previous code (partial)**: with the flag at its default the Cholesky operator round-tripped. -/
+theorem previous_code_chol_default_roundtrip (rest : List Leaf) :
     call (genCfg .f32) (tree (exChol false)) (rep (exChol false) ++ rest) = some (exChol false) :=
   rebuild_flatten _ _ (by decide +kernel) (by decide +kernel) rest
+
+/-! ### Today's constructors (layout table generated from the current source) -/
+
+def todayCfg (d : DT) : Cfg := ⟨LinOp.Generated.C14.layoutOf, d⟩
+
+/-- today's stored form of `CholLinearOperator(TriangularLinearOperator(R, upper=up), upper=up)` -/
+def exCholToday (up : Bool) : Op := .node "CholLinearOperator" [exTri up] [] [] [("upper", .bool up)] []
+
+/-- today's stored form of `KroneckerProductTriangularLinearOperator(T1, T2, upper=up)` -/
+def exKronTriToday (up : Bool) : Op :=
+  .node "KroneckerProductTriangularLinearOperator" [exTri up, exTri up] [] [] [("upper", .bool up)] []
+
+/-- **D16 / D16b fixed**: with today's constructors (`upper` is a stored keyword argument) upper-orientation Cholesky and
+Kronecker-triangular operators are normal, so `rebuild_flatten`, `rebuild_any_tensors` and
+`conversions_preserve_structure` apply to them: the rebuild returns the same operator, `upper = True` included. -/
+theorem rebuild_flatten_upper_today (rest : List Leaf) :
+    call (todayCfg .f32) (tree (exCholToday true)) (rep (exCholToday true) ++ rest) = some (exCholToday true) ∧
+    call (todayCfg .f32) (tree (exKronTriToday true)) (rep (exKronTriToday true) ++ rest) = some (exKronTriToday true) :=
+  ⟨rebuild_flatten _ _ (by decide +kernel) (by decide +kernel) rest,
+   rebuild_flatten _ _ (by decide +kernel) (by decide +kernel) rest⟩
+
+/-- a user subclass storing an operator-valued (flattening to 5 tensors) and a tensor-valued keyword argument:
+`super().__init__(base, extra_op=<Interpolated>, scale=<tensor>)` -/
+def exUserWrap : Op :=
+  .node "UserWrapLinearOperator" [.node "DenseLinearOperator" [tL 7 .f32] [] [] [] []]
+    ["extra_op", "scale"] [exInterp, tL 8 .f32] [] []
+
+/-- **Operator-valued keyword arguments** are rebuilt from the *unflattened* children: the general theorems cover
+them (`dv : List Op` may hold operators of any depth); here instantiated for a keyword operator that flattens to
+five tensors followed by a tensor keyword — rebuilt exactly, and with other tensors the skeleton is kept. -/
+theorem rebuild_flatten_operator_valued_kwargs (rest : List Leaf) :
+    (rep exUserWrap).length = 7 ∧
+    call (todayCfg .f32) (tree exUserWrap) (rep exUserWrap ++ rest) = some exUserWrap :=
+  ⟨by decide +kernel, rebuild_flatten _ _ (by decide +kernel) (by decide +kernel) rest⟩
+
+/-- clone / to / type of today's upper-orientation operators keep the skeleton (hence `upper = True`). -/
+theorem conversions_keep_upper_today (m : Mode) :
+    ∃ o', conv (todayCfg .f32) m (exCholToday true) = some o' ∧ skel o' = skel (exCholToday true) :=
+  conversions_preserve_structure _ _ (by decide +kernel) (by decide +kernel) m
+
+/-- **D17 fixed**: today a ZeroLinearOperator built with `dtype=float64` keeps reporting float64 after clone, and
+`to(float32)` / `type(float32)` change the reported dtype, whatever torch's default dtype is. -/
+theorem zero_dtype_kept_today (d : DT) :
+    let z : Op := .node "ZeroLinearOperator" [.val (.int 3), .val (.int 3)] [] [] [("device", .none), ("dtype", .dt .f64)] []
+    ((conv (todayCfg d) .clone z).bind (dtypeOf (todayCfg d) false)) = some .f64 ∧
+    ((conv (todayCfg d) (.to .f32) z).bind (dtypeOf (todayCfg d) false)) = some .f32 ∧
+    ((conv (todayCfg d) (.type .f32) z).bind (dtypeOf (todayCfg d) false)) = some .f32 := by
+  cases d <;> decide +kernel
 
 /-! ### Conversions: which tensors are cast -/
 
@@ -162,9 +215,9 @@ theorem requires_grad_exactly_float (cfg : Cfg) (v : Bool) (l : Leaf) :
     setRG cfg v (.leaf l) = .leaf (if l.dt.isFloat then { l with rg := v } else l) := by
   simp [setRG]
 
-/-- **D17 (counterexample)**: a ZeroLinearOperator built with `dtype=float64` reports float64, its copy reports
-torch's default dtype (the dtype is a hidden attribute that no copy carries over). -/
-theorem zero_dtype_lost_counterexample :
+/-- **D17, previous code (counterexample)**: with the pre-ebb6d3b constructor a ZeroLinearOperator built with
+`dtype=float64` reported float64 while its copy reported torch's default dtype (hidden attribute, never copied). -/
+theorem previous_code_zero_dtype_lost_counterexample :
     let z : Op := .node "ZeroLinearOperator" [.val (.int 3), .val (.int 3)] [] [] [] [("dtype", .dt .f64), ("device", .none)]
     dtypeOf (genCfg .f32) false z = some .f64 ∧
     ((conv (genCfg .f32) .clone z).bind (dtypeOf (genCfg .f32) false)) = some .f32 := by
@@ -172,15 +225,13 @@ theorem zero_dtype_lost_counterexample :
 
 /-! ### Obligations on the tables generated from today's source -/
 
-/-- Reviewed allocation sites that use torch's default dtype: index lists, scalars whose dtype is irrelevant,
-and the two `ZeroLinearOperator` sites of defect D17 (`to_dense`, `_get_indices`). -/
+/-- Reviewed allocation sites that use torch's default dtype: index lists and scalars whose dtype is irrelevant.
+(The two `ZeroLinearOperator` sites of defect D17 are gone since /repo ebb6d3b; re-introducing them breaks the obligation.) -/
 def reviewedDefaultDtype : List (String × String × String) := [
   ("linear_operator/operators/_linear_operator.py", "LinearOperator.__getitem__", "torch.tensor(idx)"),
   ("linear_operator/operators/cat_linear_operator.py", "CatLinearOperator.__init__",
     "torch.tensor([t.size(dim) for t in linear_ops], device=output_device)"),
-  ("linear_operator/operators/zero_linear_operator.py", "ZeroLinearOperator._get_indices", "torch.zeros(*new_size)"),
   ("linear_operator/operators/zero_linear_operator.py", "ZeroLinearOperator.logdet", "torch.tensor(0.0)"),
-  ("linear_operator/operators/zero_linear_operator.py", "ZeroLinearOperator.to_dense", "torch.zeros(*self.sizes)"),
   ("linear_operator/utils/deprecation.py", "<module>", "torch.ones(1)"),
   ("linear_operator/utils/sparse.py", "sparse_eye", "torch.tensor(1.0)")]
 
@@ -197,13 +248,11 @@ open LinOp.Generated.C14 in
 theorem layouts_complete : issues = [] := by decide +kernel
 
 open LinOp.Generated.C14 in
-/-- **Constructor parameters that never reach `_args`/`_kwargs`** (and are therefore reset by every copy and
-rebuild) are at most the reviewed ones: Chol.upper (D16), KroneckerProductTriangular.upper (D16b),
-Zero.dtype/device (D17).  A new dropped parameter breaks this obligation. -/
-theorem hidden_parameters_reviewed :
-    ∀ c ∈ classes, ∀ h ∈ c.2.hidden, (c.1, h.1) ∈
-      [("CholLinearOperator", "upper"), ("KroneckerProductTriangularLinearOperator", "upper"),
-       ("ZeroLinearOperator", "dtype"), ("ZeroLinearOperator", "device")] := by
+/-- **No constructor parameter is only kept as an attribute**: every parameter of every operator class reaches
+`_args`/`_kwargs` (or is consumed by a normalisation), so no flag can be reset by a copy or a rebuild.
+Re-introducing D16 / D16b / D17 (dropping `upper`, `dtype`, `device` from the `super().__init__` call), or dropping any
+other parameter in any class, breaks this obligation. -/
+theorem no_hidden_parameters : ∀ c ∈ classes, c.2.hidden = [] := by
   decide +kernel
 
 open LinOp.Generated.C14 in
@@ -225,6 +274,9 @@ theorem overrides_reviewed :
        ("TransposePermutationLinearOperator", "type"), ("TransposePermutationLinearOperator", "dtype"),
        ("TransposePermutationLinearOperator", "device"), ("ZeroLinearOperator", "dtype"), ("ZeroLinearOperator", "device"),
        ("ZeroLinearOperator", "to"), ("ZeroLinearOperator", "type"),
+       -- Zero's private representation tree (empty representation, rebuilt from sizes/dtype/device) is NOT mirrored by
+       -- `tree`/`call`: operators containing a Zero are outside `representable`; checked on the implementation only.
+       ("ZeroLinearOperator", "representation"), ("ZeroLinearOperator", "representation_tree"),
        ("AddedDiagLinearOperator", "evaluate_kernel"), ("MulLinearOperator", "representation"),
        ("MulLinearOperator", "representation_tree")] := by
   decide +kernel
